@@ -8,12 +8,21 @@ import (
 	"github.com/prometheus/client_golang/prometheus"
 )
 
+// Errors counts the Gather calls that reported an error (LastError holds the text of the latest)
+var Errors int
+
+// LastError is the text of the latest gather error
+var LastError string
+
 // Gather returns name{label="value",...} -> value for counters and gauges
 func Gather(g prometheus.Gatherer) map[string]float64 {
 	out := map[string]float64{}
 	mfs, err := g.Gather()
 	if err != nil {
-		panic(err)
+		// e.g. two metrics with the same name and label values: what a scrape of the agent would report as an error;
+		// the metrics that could be gathered are still returned
+		Errors++
+		LastError = err.Error()
 	}
 	for _, mf := range mfs {
 		for _, m := range mf.GetMetric() {
